@@ -126,6 +126,35 @@ def shrink_value(ctx, c, fs, H):
     return c, fs
 
 
+# many instances of one schema in one run: the instances do not interact, so the atoms of the instances 1..3 are the same whether the program has 3 or
+# 100 instances (some hundred distinct formulas in the tables of one run; every reference instance is itself checked by the value check above)
+SCALE_FORMULAS = ['> >? b(X)', '< <? b(X)', 'b(X) >* (> b(X) | < b(X))', '2 > b(X) & <* b(X)', '>* (b(X) | > b(X)) & << b(X)']
+
+
+def scale_program(n):
+    t = '#program always.\nn(1..%d).\n#program initial.\nb(X) :- n(X), X \\ 2 == 0.\n#program dynamic.\nb(X) :- n(X), not \'b(X).\n#program always.\n' % n
+    for i, f in enumerate(SCALE_FORMULAS):
+        t += 'w%d(X) :- n(X), %s &tel { %s }.\n' % (i, 'not not' if i % 2 == 0 else 'not', f)
+    return t
+
+
+def scale_cex(ctx, H):
+    import re
+    small, big = meta.answer_sets(ctx, [[scale_program(3)], [scale_program(100)]], H, timeout=120)
+    if small.get('timeout') or big.get('timeout'):
+        return []
+    if 'error' in small or 'error' in big:
+        return [{'key': 'c03:scale', 'what': 'the program with many instances fails: %s' % json.dumps([small.get('error', 'ok'), big.get('error', 'ok')]), 'input': {'scale': 100, 'H': H}}]
+    keep = lambda m: tuple(sorted(a for a in m if re.search(r'\(([123])\)@', a) and not a.startswith('n(')))
+    for h in sorted(small['ok']):
+        a = sorted(keep(m) for m in small['ok'][h])
+        b = sorted(keep(m) for m in big['ok'][h])
+        if a != b:
+            return [{'key': 'c03:scale', 'what': 'the instances 1..3 of %d formula schemata have other values in a program with 100 instances than in a program with 3 (horizon %d): %s' % (
+                len(SCALE_FORMULAS), h, json.dumps({'three': [' '.join(x) for x in a][:2], 'hundred': [' '.join(x) for x in b][:2]})), 'input': {'scale': 100, 'H': H, 'program': scale_program(100)}}]
+    return []
+
+
 def run(ctx):
     H = 3 if ctx.quick else 4
     its = items(ctx)
@@ -153,6 +182,7 @@ def run(ctx):
     # atoms with arguments: the constraint programs with their atoms renamed to atoms with arguments against the programs themselves
     rcex, rnon = meta.renaming_cex(ctx, [p for _, p in progs][:40 if ctx.quick else 200], 3, 'C03')
     cex += rcex
+    cex += scale_cex(ctx, 3)
     ops = {}
     shared = 0
     for c, fs in its:
@@ -191,6 +221,8 @@ def totuple(x):
 
 def replay(ctx, payload):
     inp = payload['input']
+    if 'scale' in inp:
+        return bool(scale_cex(ctx, inp.get('H', 3)))
     if 'renaming' in inp:
         return meta.renaming_replay(ctx, payload)
     if 'structure' in inp:
